@@ -58,6 +58,11 @@ CHECKS["C10"] = dict(level="fault_enumeration", engine="crashfs",
    text="Part M: WAL files of the three kinds (datapoints, metric names, segment meta entries; the latter also in truncate-and-rewrite mode) written by the real encoders are cut at every length and modified at every byte (4 values per byte in quick, all 255 in thorough) and fed to the real iterators inside workers limited to 2 GB of address space: the yielded sequence must be a prefix of what was appended or an error, damage must not go unnoticed, no crash, no hang. Part R: datapoint histories with the WAL thresholds pulled down (frame every 2 datapoints, optionally a new WAL file per frame), the 1 s timer flush and a block rotation run in a child whose package os reports every mutation; every distinct log prefix is recovered by a new process (the three Recover*WALData calls in production order) and the block files it leaves are decoded: every datapoint of a WAL frame that an independent reader of the documented frame format finds complete in the crash state must be there, nothing never sent, nothing twice.",
    note="Process-crash model. Metric-name and meta-entry WAL recovery is covered at iterator level only. In production the WAL recovery runs concurrently with the writer initialisation (startup.go); the check uses the order main-goroutine-first. One fix: block length validated against the file size before allocation.",
    ref="DESIGN.md §2.3, §2.4, §4 C10")
+CHECKS["C14"] = dict(level="model_checking", engine="crashfs",
+   technique="explicit enumeration of all segment-age sets x operation sequence (pass, pass, restart, pass) on the real retention code with a reference model, plus crash-prefix enumeration of the deletion's file-system operations",
+   text="Time-based pass (DoRetentionBasedDeletion with a 1 h retention) over every set of <=3 rotated log segments on two indexes whose newest event is 90 min old / 30 min old / straddling the horizon, combined with rotated metrics segments {old, fresh} in both creation orders and an open segment holding old events (all 5x3 combinations for 3 segments in thorough): after pass, second pass, process restart and a further pass, searches return exactly the events of surviving segments, expired log and metrics data are gone, segment directories, metrics block directories and segmeta.json list exactly the survivors (the model knows that a restart turns the open segment into a rotated one, which then expires). Crash part: two recorded passes are cut after every file-system operation (about 75 states); a new process must start, serve all survivors without errors, and a repeated pass must reach the same final state.",
+   note="Ages are >=30 min from the horizon on either side, so the `<=` at the exact horizon millisecond is outside the bound (time.Now() is not owned). Volume- and inode-based passes depend on the real file system's usage and are not driven.",
+   ref="DESIGN.md §4 C14")
 NOT_YET = {}
 props = [json.loads(l) for l in open("properties.jsonl")]
 m = {"version": 1, "setup_cmd": "./vcheck setup",
